@@ -223,7 +223,7 @@ func (e *env) key() string {
 		wn = true
 	}
 	started := c != nil && c.ord > e.wantNewAfter
-	fmt.Fprintf(&b, "|m=%s.%v.%s|nr=%v|wi=%v|wn=%v.%v|lk=%d", d, e.certainIdle, rel(e.n, e.now), e.needReadiness, e.wantIdle, wn, wn && started, e.lastReqKind)
+	fmt.Fprintf(&b, "|m=%s.%v.%v.%s|nr=%v|wi=%v|wn=%v.%v|lk=%d", d, e.certainIdle, e.lostIdle, rel(e.n, e.now), e.needReadiness, e.wantIdle, wn, wn && started, e.lastReqKind)
 	return b.String()
 }
 
